@@ -27,7 +27,7 @@ RULE = ('a recorded list of calls (make / make_qr / make_micro / make_sequence w
         'matrix; distinct = distinct (call, context) executions compared with a golden fingerprint')
 ASSUMPTIONS = ['golden = first call in a fresh interpreter (PYTHONHASHSEED=0)', 'interleavings are sampled, not enumerated; with the GIL only '
                'statement-granular switches exist', 'free-threaded builds are out of reach']
-REQUIRED = ['evaluations', 'golden_subprocesses', 'hashseed_variants_compared', 'history_replays_compared', 'thread_calls_compared', 'barrier_rounds',
+REQUIRED = ['evaluations', 'golden_subprocesses', 'hashseed_variants_compared', 'interaction_core_replayed', 'history_replays_compared', 'thread_calls_compared', 'barrier_rounds',
             'injected_yields', 'state_fingerprints_compared', 'returned_matrices_rehashed', 'idempotence_pairs', 'argument_snapshots_compared',
             'overlapping_call_pairs']
 TIMEOUT = {'quick': 1200, 'thorough': 7200}
@@ -85,29 +85,43 @@ def gen_cases(tier, seed):
     return calls
 
 
-def interaction_core():
-    """A fixed list every worker replays in addition to its shard: groups of calls that differ in exactly one respect
-    (same kind / other colours, same content / other options, same size / other content, lists sharing parts), so that
-    state keyed by a *part* of the arguments (a cache, a reused colour map, a shared buffer) changes a result."""
-    out = []
-    k = 900000
+def interaction_groups():
+    """Groups of calls that differ in exactly one respect (same kind / other colours, same content / other options, same size /
+    other content, lists sharing parts, with / without ECI header), so that state keyed by a *part* of the arguments (a
+    cache, a reused colour map, a shared buffer, a consumed generator) changes a result. Every worker replays one group
+    (all groups in the thorough tier) in addition to its shard."""
+    groups = []
     for kind in ('ppm', 'png', 'svg'):
+        g = []
         for cols in ({'dark': 'red', 'light': 'white'}, {'dark': 'navy', 'light': 'gold'}, {'dark': '#123456', 'light': '#abc', 'finder_dark': 'red'},
                      {'dark': 'gold', 'light': 'navy', 'data_light': '#123456'}, {}):
-            out.append({'op': 'save', 'content': 'INTERACTION', 'make_kw': {}, 'kind': kind, 'kw': dict(cols)})
-    for kw in ({}, {'error': 'H'}, {'mask': 3}, {'version': 5}, {'micro': False}, {'boost_error': False}, {'mode': 'byte'}):
-        out.append({'op': 'make', 'fn': 'make', 'content': 'ABC123', 'kw': dict(kw)})
-    for content in ('12345678', '1234567', 'ABCDEFGH', 'abcdefgh', '点茗荷', b'\x00\x01\x02'):
-        out.append({'op': 'make', 'fn': 'make', 'content': content, 'kw': {'version': 2}})
-    for content in (['ABCD', 'EF'], 'ABCD', ['ABCD', 'EF', 'GH'], ['123', '456'], '123', ['123', '456', 'abc'], ['abc', 'def'], 'abc', 'ABCDEF'):
-        out.append({'op': 'make', 'fn': 'make', 'content': content, 'kw': {}})
-    for kind in ('pdf', 'eps', 'txt', 'xpm', 'pam'):
-        for skw in ({}, {'scale': 2}, {'border': 1}):
-            out.append({'op': 'save', 'content': 'INTERACTION', 'make_kw': {'error': 'Q'}, 'kind': kind, 'kw': dict(skw)})
-    for c in out:
-        c['id'] = k
-        k += 1
-    return out
+            g.append({'op': 'save', 'content': 'INTERACTION', 'make_kw': {}, 'kind': kind, 'kw': dict(cols)})
+        groups.append(g)
+    groups.append([{'op': 'make', 'fn': 'make', 'content': 'ABC123', 'kw': dict(kw)}
+                   for kw in ({}, {'error': 'H'}, {'mask': 3}, {'version': 5}, {'micro': False}, {'boost_error': False}, {'mode': 'byte'})] +
+                  [{'op': 'make', 'fn': 'make', 'content': content, 'kw': {'version': 2}}
+                   for content in ('12345678', '1234567', 'ABCDEFGH', 'abcdefgh', '点茗荷', b'\x00\x01\x02')])
+    groups.append([{'op': 'make', 'fn': 'make', 'content': content, 'kw': {}}
+                   for content in (['ABCD', 'EF'], 'ABCD', ['ABCD', 'EF', 'GH'], ['123', '456'], '123', ['123', '456', 'abc'], ['abc', 'def'],
+                                   'abc', 'ABCDEF', ['SEGNO ', 'QR CODE ', 'GENERATOR'], 'SEGNO ', ['777', '777', '777'], '777')])
+    for ns in ((15, 16, 17, 18), (30, 31, 32, 33)):
+        groups.append([{'op': 'make', 'fn': 'make', 'content': 'a' * n, 'kw': dict(kw, micro=False)} for n in ns
+                       for kw in ({'eci': True}, {'eci': True, 'encoding': 'utf-8'}, {'eci': True, 'encoding': 'latin1'}, {})])
+    for kind in ('png', 'svg'):
+        g = []
+        for cols in ({'dark': '#0000ffcc', 'light': None}, {'dark': '#12345680', 'light': None, 'finder_dark': 'black'},
+                     {'dark': (10, 20, 30, 255)}, {'dark': (10, 20, 30, 255.0)}, {'dark': '#abcd', 'light': None}):
+            for rep in range(3):
+                g.append({'op': 'save', 'content': 'INTERACTION', 'make_kw': {}, 'kind': kind, 'kw': dict(cols)})
+        groups.append(g)
+    groups.append([{'op': 'save', 'content': 'INTERACTION', 'make_kw': {'error': 'Q'}, 'kind': kind, 'kw': dict(skw)}
+                   for kind in ('pdf', 'eps', 'txt', 'xpm', 'pam') for skw in ({}, {'scale': 2}, {'border': 1})])
+    k = 900000
+    for g in groups:
+        for c in g:
+            c['id'] = k
+            k += 1
+    return groups
 
 
 _STAMPS = [(re.compile(rb'(%%CreationDate: )[0-9: -]{19}'), rb'\1' + b'X' * 19),
@@ -344,7 +358,13 @@ def run_cases(cases, rec, tier='quick', seed='0'):
     monitors.start_reach()
     state_at_import = module_state()
     groups = [c for c in cases if c['op'] == 'barrier-group']
-    plain = [c for c in cases if c['op'] != 'barrier-group'] + interaction_core()
+    plain = [c for c in cases if c['op'] != 'barrier-group']
+    groups_i = interaction_groups()
+    shard = int(os.environ.get('VERIF_SHARD', '0') or 0)
+    chosen = groups_i if tier == 'thorough' else [groups_i[shard % len(groups_i)]]
+    for g in chosen:
+        plain = plain + g
+        rec.count('interaction_core_replayed')
     golden = golden_in_subprocess(plain + [cc for g in groups for cc in g['calls']], rec)
     rec.count('golden_subprocesses', len(golden))
     # ---------------------------------------------------------------- threads first: every size is used for the first
